@@ -227,7 +227,8 @@ def gen_decrypt_recover(g, honest):
         if i % 3 == 0:
             # against the negated encryption key the negated decryption key comes out
             g.recover(rr, ss, h['sig'], neg(h['Y']), 'recover_negated_enckey', '#1 ' + h32(N - h['y']))
-            g.recover(rr, ss, h['sig'], mul(r.seckey(), G), 'recover_wrong_enckey', '#0')
+            wk = mul(r.seckey(), G)       # an unrelated encryption key (edge-biased draw: may coincide with +-Y)
+            g.recover(rr, ss, h['sig'], wk, 'recover_wrong_enckey', '#1 ' + h32(h['y']) if wk == h['Y'] else '#1 ' + h32(N - h['y']) if wk == neg(h['Y']) else '#0')
             g.recover(rr, ss, h['sig'], None, 'recover_bad_enckey_object', '#0 ILL1')
         if i % 3 == 1:
             # unrelated ECDSA signatures: random, same s with another r, same r with another s
